@@ -452,6 +452,32 @@ def probe_cone_domains_and_affine_duals():
                 if len(vs) == 3 and (not all(math.isfinite(v) for v in vs) or max(vs) - min(vs) > 1e-4 * (1 + abs(vs[0]))):
                     return ('min x^3 - 4x^2 + 7x + 1/x s.t. 2 - x - 0.5/x >= 0 at p = %d: (form, compact_dual) -> value is %s; the three must agree'
                             % (p_, {str(k): v for k, v in got.items()}))
+            # (c) the dual variable written in a shifted parametrisation v = v0 + w (an affine Expression with constant offsets handed to
+            # DualSageCone): min c.v over the dual cone with v_0 = 1 is the dual bound, whatever compact_dual / presolve are and however they are given
+            alpha_s = np.array([[0, 0], [1, 0], [0, 1], [1, 1], [0.5, 0], [0, 0.5]], dtype=float)
+            c_s = np.array([0, 3, 2, 1, -4, -2], dtype=float)
+            f_s = so.Signomial(alpha_s, c_s)
+            sc.SETTINGS.update(saved)
+            ref = ss.sig_relaxation(f_s, form='dual').solve(verbose=False)
+            v0 = np.array([1.0, 0.5, 0.25, 2.0, 0.75, 1.5])
+            for comp, pre, how in itertools.product((True, False), (True, False), ('global', 'override')):
+                sc.SETTINGS.update(saved)
+                w = cl.Variable(shape=(6,), name='shift_w_%d%d%s' % (comp, pre, how))
+                v = w + v0
+                gam = cl.Variable(name='shift_g_%d%d%s' % (comp, pre, how))
+                c_expr = cl.Expression(list(c_s))
+                c_expr[0] = c_expr[0] - gam
+                st_ = {'compact_dual': comp, 'presolve_trivial_age_cones': pre}
+                if how == 'global':
+                    sc.SETTINGS.update(st_)
+                    con = cl.DualSageCone(v, alpha_s, None, 'shift_dual', c=c_expr)
+                else:
+                    con = cl.DualSageCone(v, alpha_s, None, 'shift_dual', c=c_expr, settings=st_)
+                stt, val = cl.Problem(cl.MIN, c_s @ w, [con, v[0] == 1]).solve(verbose=False)
+                val = val + float(c_s @ v0)
+                if ref[0] == 'solved' and not (stt == 'solved' and abs(val - ref[1]) <= 1e-4 * (1 + abs(ref[1]))):
+                    return ('min c.v over the dual SAGE cone with v = v0 + w (affine with constant offsets), v_0 = 1: (compact_dual, presolve, given %s) = (%s, %s) '
+                            'reports (%s, %r); the dual bound is %r' % (how, comp, pre, stt, val, ref[1]))
     finally:
         sc.SETTINGS.clear()
         sc.SETTINGS.update(saved)
